@@ -473,6 +473,8 @@ class Models:
                     raise py_exc(IndexError, "list assignment index out of range")
                 cell.data[k] = v
                 return
+        if isinstance(obj, Ext) and f"ext:{obj.kind}.__setitem__" in self.e.contracts:
+            return self.e.call_ext(c, obj, "__setitem__", [idx, v], {}, node)
         raise Undecided(f"subscript store on {tag_of(obj)}")
 
     def slice_(self, c, obj, lo, hi, node):
@@ -595,6 +597,7 @@ class Models:
         T[sum] = self.b_sum
         T[map] = self.b_map
         T[filter] = self.b_filter
+        T[sorted] = self.b_sorted
         T[type] = self.b_type
         T[range] = self.b_range
         T[hasattr] = self.b_hasattr
@@ -771,6 +774,34 @@ class Models:
 
     def b_map(self, c, a, k, n):
         return ("$map", a[0], a[1])
+
+    def b_sorted(self, c, a, k, n):
+        """sorted() of a list of known length whose elements are (symbolic) strings: a deterministic compare-exchange network over
+        z3's code-point order on strings (Python compares str by code point too); lengths 0..4, no key / reverse."""
+        if k:
+            raise Undecided("sorted() with key / reverse")
+        xs = list(self.e.interp.iterate(c, a[0], n))
+        if len(xs) <= 1:
+            return c.alloc("list", None, xs)
+        is_pair = all(isinstance(x, tuple) and len(x) == 2 and all(tag_of(y) == "str" for y in x) for x in xs)
+        if len(xs) > 4 or not (is_pair or all(tag_of(x) == "str" for x in xs)):
+            raise Undecided("sorted() of more than 4 elements or of elements other than strings / pairs of strings")
+        ts = [tuple(as_str_term(y) for y in x) if is_pair else (as_str_term(x),) for x in xs]
+
+        def le(a, b):  # tuple comparison: lexicographic
+            if len(a) == 1:
+                return a[0] <= b[0]
+            return z3.Or(a[0] < b[0], z3.And(a[0] == b[0], a[1] <= b[1]))
+
+        def cx(i, j):
+            cnd = le(ts[i], ts[j])
+            lo = tuple(z3.If(cnd, x, y) for x, y in zip(ts[i], ts[j]))
+            hi = tuple(z3.If(cnd, y, x) for x, y in zip(ts[i], ts[j]))
+            ts[i], ts[j] = lo, hi
+        net = {2: [(0, 1)], 3: [(0, 1), (1, 2), (0, 1)], 4: [(0, 1), (2, 3), (0, 2), (1, 3), (1, 2)]}[len(ts)]
+        for (i, j) in net:
+            cx(i, j)
+        return c.alloc("list", None, [tuple(mk("str", y) for y in t) if is_pair else mk("str", t[0]) for t in ts])
 
     def b_filter(self, c, a, k, n):
         f, it = a
